@@ -122,6 +122,167 @@ pub fn check(ts: &[usize], width: usize, slide: usize, firings: &[Firing], compl
     Ok(st)
 }
 
+/// smallest candidate interval end worth looking at: every aligned c below it has an empty interval
+/// (c <= ts[0] - width), and so has this one, so it stands for all of them
+fn first_candidate(ts: &[usize], width: usize, slide: usize) -> usize {
+    (ts.first().copied().unwrap_or(0).saturating_sub(width) / slide) * slide
+}
+
+/// arrival indices whose timestamp lies in [c - width, c), overflow-free for large timestamps
+fn interval_abs(ts: &[usize], c: usize, width: usize) -> BTreeSet<usize> {
+    ts.iter().enumerate().filter(|(_, &t)| (t as u128) + (width as u128) >= c as u128 && t < c).map(|(i, _)| i).collect()
+}
+
+/// VALUES (not arrival indices) of the items whose timestamp lies in [c - width, c)
+pub fn interval_values(ts: &[usize], values: &[usize], c: usize, width: usize) -> BTreeSet<usize> {
+    interval_abs(ts, c, width).into_iter().map(|i| values[i]).collect()
+}
+
+/// Generalisation of `check` (same statement, same clauses, same symptom classes) to
+///  * item VALUES that may repeat: `values[i]` is what was fed at arrival i and a report is the SET of
+///    values of one aligned interval (a window's content is a set - the statement speaks of "the set of
+///    items"), so two different intervals may have equal contents;
+///  * timestamps of any magnitude (candidates start at `first_candidate`, not at 0).
+/// With repeated values "reported exactly once" cannot be counted by content equality. It is decided
+/// exactly: every report stands for one interval end c (aligned, <= trigger time, content equal), the c
+/// are non-decreasing, and - dense stream, `completeness` - every c in (t_first, t_last] with a
+/// NON-EMPTY interval is used exactly once. Only those c have non-empty intervals, so the non-empty
+/// reports must match them one to one IN ORDER (an order-preserving bijection between two sequences is
+/// unique); empty reports take the smallest admissible empty interval.
+pub fn check_values(ts: &[usize], values: &[usize], width: usize, slide: usize, firings: &[Firing], completeness: bool) -> Result<Stats, (String, String)> {
+    assert!(width >= 1 && slide >= 1 && ts.len() == values.len());
+    let mut st = Stats::default();
+    for f in firings {
+        if f.at >= ts.len() {
+            return Err(("report_outside_stream".into(), format!("report attributed to arrival {} of a {}-item stream", f.at, ts.len())));
+        }
+    }
+    for w in firings.windows(2) {
+        let (t0, t1) = (ts[w[0].at], ts[w[1].at]);
+        if t1 <= t0 {
+            return Err(("trigger_times_not_strictly_increasing".into(), format!("report triggered at t={} follows a report triggered at t={}", t1, t0)));
+        }
+    }
+    let c0 = first_candidate(ts, width, slide);
+    // aligned c in [from, t] whose value set equals `content`
+    let cands_of = |content: &BTreeSet<usize>, t: usize| -> Vec<usize> {
+        let mut v = Vec::new();
+        let mut c = c0;
+        while c <= t {
+            if interval_values(ts, values, c, width) == *content {
+                v.push(c);
+            }
+            c += slide;
+        }
+        v
+    };
+    let not_an_interval = |f: &Firing, t: usize| -> (String, String) {
+        let mut best: Option<(usize, usize)> = None;
+        let mut c = c0;
+        while c <= t + width + slide {
+            let diff = interval_values(ts, values, c, width).symmetric_difference(&f.content).count();
+            if best.map_or(true, |b| diff < b.1) {
+                best = Some((c, diff));
+            }
+            c += slide;
+        }
+        let mut why = String::new();
+        if let Some((c, _)) = best {
+            let iv = interval_values(ts, values, c, width);
+            let missing: Vec<_> = iv.difference(&f.content).collect();
+            let foreign: Vec<_> = f.content.difference(&iv).collect();
+            why = format!("; nearest aligned interval is c={}{} [{}..{}): missing values {:?}, foreign values {:?}", c, if c > t { " (which is after the trigger)" } else { "" }, c as i128 - width as i128, c, missing, foreign);
+        }
+        ("content_is_not_one_aligned_interval".into(), format!("report at t={} (arrival {}) has content {:?}: no c = k*{} <= {} with the values of the items in [c-{}, c) equal to it{}", t, f.at, f.content, slide, t, width, why))
+    };
+    st.dense = all_gaps_at_most(ts, slide);
+    let exact = completeness && st.dense && !ts.is_empty();
+    // the interval ends that must be reported exactly once
+    let mut obl: Vec<usize> = Vec::new();
+    if exact {
+        let (first, last) = (ts[0], *ts.last().unwrap());
+        let mut c = c0;
+        while c <= last {
+            if c > first && !interval_abs(ts, c, width).is_empty() {
+                obl.push(c);
+            }
+            c += slide;
+        }
+    }
+    let mut k = 0usize; // next obligation
+    let mut prev_c = c0;
+    for f in firings {
+        let t = ts[f.at];
+        let cands = cands_of(&f.content, t);
+        if cands.is_empty() {
+            return Err(not_an_interval(f, t));
+        }
+        if !f.content.is_empty() {
+            st.nonempty_firings += 1;
+        }
+        if exact && !f.content.is_empty() {
+            if k < obl.len() && obl[k] >= prev_c && cands.contains(&obl[k]) {
+                prev_c = obl[k];
+                st.chosen.push(obl[k]);
+                k += 1;
+                continue;
+            }
+            let later: Vec<usize> = cands.iter().copied().filter(|c| *c >= prev_c).collect();
+            if later.is_empty() {
+                return Err(("intervals_decrease".into(), format!("report at t={} with content {:?} can only be an interval ending at {:?}, but an earlier report already needed an interval ending at {}", t, f.content, cands, prev_c)));
+            }
+            if k > 0 && later.iter().all(|c| *c <= obl[k - 1]) {
+                return Err(("closing_interval_reported_more_than_once".into(), format!("all gaps <= slide, report at t={} with content {:?} can only be the interval ending at {:?}, which was already reported", t, f.content, later)));
+            }
+            let skipped = obl.get(k).copied().unwrap_or(0);
+            return Err(("closing_interval_not_reported".into(), format!("all gaps <= slide, interval [{}..{}) = values {:?} closed but the next non-empty report (t={}, content {:?}) can only be a later interval {:?}", skipped as i128 - width as i128, skipped, interval_values(ts, values, skipped, width), t, f.content, later)));
+        }
+        match cands.iter().find(|c| **c >= prev_c) {
+            Some(c) => {
+                prev_c = *c;
+                st.chosen.push(*c);
+            }
+            None => {
+                return Err(("intervals_decrease".into(), format!("report at t={} with content {:?} can only be an interval ending at {:?}, but an earlier report already needed an interval ending at {}", t, f.content, cands, prev_c)));
+            }
+        }
+    }
+    if exact {
+        if k < obl.len() {
+            let c = obl[k];
+            return Err(("closing_interval_not_reported".into(), format!("all gaps <= slide, interval [{}..{}) = values {:?} closed at or before t_last={} but was never reported", c as i128 - width as i128, c, interval_values(ts, values, c, width), ts.last().unwrap())));
+        }
+        st.obligations = obl.len() as u64;
+    }
+    Ok(st)
+}
+
+/// number of pairs of DIFFERENT obligated interval ends (dense stream) with equal non-empty value sets:
+/// the situation in which "exactly once" cannot be counted by content equality (vacuity counter)
+pub fn equal_content_obligations(ts: &[usize], values: &[usize], width: usize, slide: usize) -> u64 {
+    if ts.is_empty() || !all_gaps_at_most(ts, slide) {
+        return 0;
+    }
+    let (first, last) = (ts[0], *ts.last().unwrap());
+    let mut sets: Vec<BTreeSet<usize>> = Vec::new();
+    let mut c = first_candidate(ts, width, slide);
+    while c <= last {
+        if c > first && !interval_abs(ts, c, width).is_empty() {
+            sets.push(interval_values(ts, values, c, width));
+        }
+        c += slide;
+    }
+    let mut n = 0;
+    for i in 0..sets.len() {
+        for j in i + 1..sets.len() {
+            if sets[i] == sets[j] {
+                n += 1;
+            }
+        }
+    }
+    n
+}
+
 fn f(at: usize, items: &[usize]) -> Firing {
     Firing { at, content: items.iter().cloned().collect() }
 }
@@ -178,7 +339,48 @@ pub fn selftest() -> Vec<String> {
     expect("1/3", check(&[0, 1, 2, 3], 1, 3, &[f(3, &[2])], true), Ok(1));
     // same trigger time twice
     expect("two reports at one time", check(&[0, 1, 2], 1, 1, &[f(1, &[0]), f(2, &[1]), f(2, &[1])], false), Err("trigger_times_not_strictly_increasing"));
-    if interval(&[0, 1, 2, 3], 4, 2) != [2usize, 3].into_iter().collect() || !interval(&[0, 1], 0, 3).is_empty() || interval(&[0, 1, 5], 2, 5) != [0usize, 1].into_iter().collect() {
+    // --- check_values: the same hand cases with identity values must give the same verdicts ---
+    let id = |n: usize| (0..n).collect::<Vec<usize>>();
+    expect("v: repo example", check_values(&ts, &id(10), 10, 2, &four, true), Ok(4));
+    expect("v: one report dropped", check_values(&ts, &id(10), 10, 2, &four[1..], true), Err("closing_interval_not_reported"));
+    expect("v: reported twice", check_values(&ts, &id(10), 10, 2, &twice, true), Err("closing_interval_reported_more_than_once"));
+    expect("v: c after trigger", check_values(&ts, &id(10), 10, 2, &swapped, false), Err("content_is_not_one_aligned_interval"));
+    expect("v: border item", check_values(&ts, &id(10), 10, 2, &foreign, true), Err("content_is_not_one_aligned_interval"));
+    expect("v: item missing", check_values(&ts, &id(10), 10, 2, &missing, true), Err("content_is_not_one_aligned_interval"));
+    expect("v: width<slide ok", check_values(&[0, 1, 2, 3], &id(4), 2, 3, &[f(3, &[1, 2])], true), Ok(1));
+    expect("v: 3/2 ok", check_values(&[0, 1, 2, 3, 4], &id(5), 3, 2, &[f(2, &[0, 1]), f(4, &[1, 2, 3])], true), Ok(2));
+    expect("v: 3/2 empty report behind", check_values(&[0, 1, 2, 3, 4], &id(5), 3, 2, &[f(2, &[0, 1]), f(3, &[]), f(4, &[1, 2, 3])], true), Err("intervals_decrease"));
+    expect("v: empty closing interval", check_values(&[0, 2], &id(2), 1, 2, &[f(1, &[])], true), Ok(0));
+    expect("v: 3/2 same interval twice in order", check_values(&[0, 1, 2, 3, 4], &id(5), 3, 2, &[f(3, &[0, 1]), f(4, &[0, 1])], false), Ok(0));
+    expect("v: 3/2 intervals go back", check_values(&[0, 1, 2, 3, 4], &id(5), 3, 2, &[f(3, &[0, 1]), f(4, &[0, 1])], true), Err("closing_interval_reported_more_than_once"));
+    expect("v: 3/2 decreasing at later time", check_values(&[0, 1, 2, 3, 4, 5], &id(6), 3, 2, &[f(4, &[1, 2, 3]), f(5, &[0, 1])], false), Err("intervals_decrease"));
+    expect("v: duplicates", check_values(&[1, 1, 2], &id(3), 2, 2, &[f(2, &[0, 1])], true), Ok(1));
+    expect("v: dense, silent", check_values(&[0, 1], &id(2), 2, 1, &[], true), Err("closing_interval_not_reported"));
+    expect("v: gap, empty report", check_values(&[0, 5], &id(2), 2, 1, &[f(1, &[])], true), Ok(0));
+    expect("v: two reports at one time", check_values(&[0, 1, 2], &id(3), 1, 1, &[f(1, &[0]), f(2, &[1]), f(2, &[1])], false), Err("trigger_times_not_strictly_increasing"));
+    // repeated values: four items all carrying value 0, width 2 slide 1: the intervals ending at 1, 2, 3
+    // all have content {0} and each must be reported once
+    expect("v: three equal contents", check_values(&[0, 1, 2, 3], &[0, 0, 0, 0], 2, 1, &[f(1, &[0]), f(2, &[0]), f(3, &[0])], true), Ok(3));
+    expect("v: three equal contents, one dropped", check_values(&[0, 1, 2, 3], &[0, 0, 0, 0], 2, 1, &[f(1, &[0]), f(3, &[0])], true), Err("closing_interval_not_reported"));
+    expect("v: three equal contents, one dropped, safety only", check_values(&[0, 1, 2, 3], &[0, 0, 0, 0], 2, 1, &[f(1, &[0]), f(3, &[0])], false), Ok(0));
+    // values 0,1,0 at 0,1,2, width 1 slide 1: c=1 -> {0}, c=2 -> {1}; {0} again at t=2 can only be c=1 again
+    expect("v: alternating ok", check_values(&[0, 1, 2], &[0, 1, 0], 1, 1, &[f(1, &[0]), f(2, &[1])], true), Ok(2));
+    expect("v: stale content", check_values(&[0, 1, 2], &[0, 1, 0], 1, 1, &[f(1, &[0]), f(2, &[0])], true), Err("closing_interval_reported_more_than_once"));
+    expect("v: foreign value", check_values(&[0, 1, 2], &[0, 1, 0], 1, 1, &[f(1, &[0, 1])], true), Err("content_is_not_one_aligned_interval"));
+    // a value that is in the interval twice is reported as one element
+    expect("v: value twice in one interval", check_values(&[0, 1, 2], &[7, 7, 8], 2, 2, &[f(2, &[7])], true), Ok(1));
+    // large timestamps: B odd, slide 2 -> aligned ends are B+1, B+3; [B-1, B+1) holds the first item only
+    let b = 1_700_000_000_003usize;
+    expect("v: large offset ok", check_values(&[b, b + 1, b + 2], &id(3), 2, 2, &[f(1, &[0])], true), Ok(1));
+    expect("v: large offset, unaligned interval", check_values(&[b, b + 1, b + 2], &id(3), 2, 2, &[f(1, &[0]), f(2, &[0, 1])], true), Err("content_is_not_one_aligned_interval"));
+    expect("v: large offset, silent", check_values(&[b, b + 1, b + 2], &id(3), 2, 2, &[], true), Err("closing_interval_not_reported"));
+    let big = (1usize << 53) - 20;
+    expect("v: 2^53-20, width 3 slide 3", check_values(&[big, big + 1, big + 2, big + 3], &id(4), 3, 3, &[f(3, &[0, 1, 2])], true), Ok(1));
+    expect("v: 2^53-20, width 3 slide 3, border item included", check_values(&[big, big + 1, big + 2, big + 3], &id(4), 3, 3, &[f(3, &[0, 1, 2, 3])], true), Err("content_is_not_one_aligned_interval"));
+    if equal_content_obligations(&[0, 1, 2, 3], &[0, 0, 0, 0], 2, 1) != 3 || equal_content_obligations(&[0, 1, 2], &[0, 1, 0], 1, 1) != 0 {
+        errs.push("window reference: equal_content_obligations() wrong".into());
+    }
+    if interval(&[0, 1, 2, 3], 4, 2) !=[2usize, 3].into_iter().collect() || !interval(&[0, 1], 0, 3).is_empty() || interval(&[0, 1, 5], 2, 5) != [0usize, 1].into_iter().collect() {
         errs.push("window reference: interval() wrong".into());
     }
     errs
